@@ -98,7 +98,7 @@ ResOk ==
 InvNames == <<"CapSound", "RejectEarly", "NoCrash", "RoundTrip", "Atomic", "Confined", "UnitsInArea", "LockOneWay">>
 InvP(n) ==
     \/ Relaxed(n)
-    \/ CASE n = "CapSound"    -> Ev.a = "Begin" => CapSoundP(lay)
+    \/ CASE n = "CapSound"    -> Ev.a = "Begin" => CapSoundP(lay) /\ Ev.cap <= RefCapacity(lay)
          [] n = "RejectEarly" -> pc' = "rejected" => k' = 0 /\ mem' = lay.mem0
          [] n = "NoCrash"     -> pc' # "crashed"
          [] n = "RoundTrip"   -> (Ev.a = "Ret" /\ pc' = "done") => RoundTripP(lay, mem', op', msg')
